@@ -184,7 +184,7 @@ def oracle_dobj(run):
 
 
 def register(PROPS, COMPONENTS):
-    COMPONENTS["dobj"] = dict(client="dobj", driver="dobj", tap=True, directed_runs=6, quick_runs=900, thorough_runs=30000,
+    COMPONENTS["dobj"] = dict(client="dobj", driver="dobj", tap=True, cov_headers=["gmlc/concurrency/DelayedObjects.hpp"], directed_runs=6, quick_runs=900, thorough_runs=30000,
                               oracle=oracle_dobj)
     PROPS["C18"] = dict(
         lean_files=["ConcVerif/Props/C18.lean"], components=["dobj"], stage="B",
